@@ -513,6 +513,33 @@ func (h *c07Hist) reconcile(op string, mode int, force bool) {
 			return
 		}
 		if h.nF > 0 && len(obsF) == 0 && c07EqualTimes(obsR, wantF) {
+			// The current file became the rotated one; the records of the
+			// former rotated file are gone.  That is "ageing out" only if
+			// that file was old enough: its oldest record at least one
+			// rotation interval before this check (virtual time).
+			now := time.Now()
+			if due := h.live[h.nR].T.Add(h.ivl); due.After(now) {
+				h.rec.Events["rotations_before_the_current_file_was_one_interval_old"]++
+			}
+			if h.nR > 0 {
+				if oldest := h.live[0]; oldest.T.Add(h.ivl).After(now) {
+					youngest := h.live[h.nR-1]
+					h.violate("rotation:records-removed-before-interval",
+						"a rotation check removed records although the oldest record of their file is younger than the rotation interval",
+						map[string]any{
+							"operation": op, "check_at": now.Format(time.RFC3339Nano), "rotation_ivl": h.ivl.String(),
+							"records_removed": h.nR, "oldest_removed_record": oldest.String(),
+							"age_of_the_oldest_removed_record":             now.Sub(oldest.T).String(),
+							"age_of_the_youngest_removed_record":           now.Sub(youngest.T).String(),
+							"oldest_record_of_the_current_file":            h.live[h.nR].String(),
+							"age_of_the_oldest_record_of_the_current_file": now.Sub(h.live[h.nR].T).String(),
+						})
+					h.dead = true
+
+					return
+				}
+				h.rec.Events["rotations_that_aged_out_a_file_older_than_the_interval"]++
+			}
 			for _, e := range h.live[:h.nR] {
 				h.gone[e.Nano] = "aged-out"
 				delete(h.byTime, e.Nano)
@@ -772,7 +799,42 @@ func (h *c07Hist) opConfig() {
 	h.setConfig(enabled, anonymize, ignored, h.rng.Intn(4) == 0)
 }
 
-func (h *c07Hist) opRestart() {
+func (h *c07Hist) opRestart() { h.restart(true) }
+
+// rotationCheck runs the body of the product's rotation loop once, as Start
+// does right away and the hourly ticker does afterwards.
+func (h *c07Hist) rotationCheck(why string) {
+	if h.dead {
+		return
+	}
+	h.opf("rotation check (%s) at %s", why, time.Now().Format(time.RFC3339Nano))
+	h.rec.Events["rotation_checks"]++
+	h.rec.Events["rotation_checks_"+strings.SplitN(why, " ", 2)[0]]++
+	if !h.guard("checkAndRotate", func() { h.inst.l.checkAndRotate(context.Background()) }) {
+		return
+	}
+	synctest.Wait()
+	h.reconcile("rotate", c07MayRotate, true)
+}
+
+// opHours lets some hours pass: the rotation loop of the product checks once
+// an hour.  Records arrive in between.
+func (h *c07Hist) opHours() {
+	for n := 1 + h.rng.Intn(8); n > 0 && !h.dead; n-- {
+		time.Sleep(time.Hour)
+		h.rotationCheck("hourly tick")
+		if h.rng.Intn(2) == 0 && h.enabled {
+			h.opAdd(1 + h.rng.Intn(3))
+		}
+		if h.rng.Intn(3) == 0 {
+			h.opFlush()
+		}
+	}
+}
+
+// restart stops the instance cleanly and creates a new one on the same
+// directory.  startCheck runs the rotation check Start begins with.
+func (h *c07Hist) restart(startCheck bool) {
 	var conf Config
 	if !h.guard("WriteDiskConfig", func() { h.inst.l.WriteDiskConfig(&conf) }) {
 		return
@@ -792,6 +854,9 @@ func (h *c07Hist) opRestart() {
 		return
 	}
 	h.newInst()
+	if startCheck {
+		h.rotationCheck("start of the new instance")
+	}
 }
 
 var c07MemSizes = []uint{1, 2, 5, 5, 50, 50}
@@ -1959,7 +2024,8 @@ func (h *c07Hist) opInvariance() {
 		return
 	}
 	if h.rng.Intn(2) == 0 {
-		h.opRestart()
+		// Without the rotation check of Start: it may age entries out.
+		h.restart(false)
 		compare("restart")
 	}
 }
@@ -1989,10 +2055,15 @@ func (h *c07Hist) run(target int, large bool) {
 				n = 20 + h.rng.Intn(60)
 			}
 			h.opAdd(n)
-		case k < 60:
+		case k < 59:
 			h.opFlush()
-		case k < 70:
+		case k < 65:
 			h.opRotate()
+		case k < 70:
+			if large {
+				continue
+			}
+			h.opHours()
 		case k < 73:
 			if large {
 				continue
@@ -2051,7 +2122,8 @@ func c07RunHistory(rep *verifkit.Report, id int, base string, large bool, scan i
 	h := &c07Hist{
 		id: id, rng: rng, rec: rec, dir: dir,
 		memSize: c07MemSizes[rng.Intn(len(c07MemSizes))],
-		ivl:     []time.Duration{time.Hour, 6 * time.Hour, 24 * time.Hour}[rng.Intn(3)],
+		ivl: []time.Duration{time.Hour, 90 * time.Minute, 6 * time.Hour, 6 * time.Hour, 23 * time.Hour, 24 * time.Hour, 24 * time.Hour,
+			36 * time.Hour, 7 * 24 * time.Hour}[rng.Intn(9)],
 		enabled: true,
 		byTime:  map[int64]*c07Entry{}, gone: map[int64]string{},
 		lastSizeF: -1, lastSizeR: -1,
@@ -2331,6 +2403,8 @@ func TestVerifC07(t *testing.T) {
 		{"scan_limit_search_walks_with_an_empty_page_that_carries_a_cursor", 4}, {"scan_limit_listing_walks", 4},
 		{"location_invariance_comparisons_after_flush", 500}, {"location_invariance_comparisons_after_rotate", 200},
 		{"location_invariance_entries_moved_memory_to_file", 100},
+		{"rotation_checks_hourly", 100}, {"rotation_checks_start", 50},
+		{"rotations_that_aged_out_a_file_older_than_the_interval", 5},
 	} {
 		if got := rep.EventCount(need.event); got < need.min {
 			rep.Inconcl(fmt.Sprintf("only %d %s events (need %d)", got, need.event, need.min))
